@@ -499,6 +499,8 @@ def op_dump_dot(w, ins):
     roots = [a] + [w.pick(i, m) for i in ins.get('more', [])]
     rr = [node_of(s.ref) for s in roots]
     ext = ins.get('ext', 'dot')
+    if w.real_dir is not None:
+        ext = 'dot'          # no stub to capture what the dot program is fed
     fname = f'fig{w.step_no}.{ext}'
     ndots = len(w.fs.dot_inputs)
     if ins.get('filetype'):
@@ -507,9 +509,9 @@ def op_dump_dot(w, ins):
         ok, v = call(w, g.api.dump, fname, [s.ref for s in roots])
     expect_ok(w, ok, v, 'C18', f'dump {ext}')
     if ext == 'dot':
-        if fname not in w.fs.files:
+        if w.get_file(fname) is None:
             w.fail('wrong_result', 'dump(.dot) wrote no file', ['C18'])
-        text = w.fs.files[fname].decode('utf8')
+        text = w.get_file(fname).decode('utf8')
     else:
         if len(w.fs.dot_inputs) != ndots + 1:
             w.fail('wrong_result', f'dump(.{ext}) did not run dot once', ['C18'])
